@@ -4,7 +4,7 @@ import SciVerif.Tie.Pins
 /-! Tie A obligations for C16 on the current source. -/
 namespace SciVerif.Tie
 -- functions the model relies on without an obligation of its own naming them (pinned by bin/mkpins):
--- PIN-ALSO: Scipipe.InPort_Ready Scipipe.OutPort_Ready Scipipe.InParamPort_Ready Scipipe.OutParamPort_Ready Scipipe.InPort_Disconnect Scipipe.OutPort_Disconnect Scipipe.OutParamPort_Disconnect Scipipe.InPort_SetReady Scipipe.OutPort_SetReady Scipipe.InParamPort_SetReady Scipipe.OutParamPort_SetReady Scipipe.Sink_From Scipipe.Sink_FromParam Scipipe.Workflow_AddProc Scipipe.Workflow_Proc Scipipe.InParamPort_FromStr Scipipe.BaseProcess_InitInPort Scipipe.BaseProcess_InitOutPort Scipipe.BaseProcess_InitInParamPort Scipipe.BaseProcess_InitOutParamPort Scipipe.Process_In Scipipe.Process_Out Scipipe.Process_InParam Scipipe.Process_OutParam Scipipe.NewProc Scipipe.Workflow_NewProc Scipipe.NewBaseProcess Scipipe.BaseProcess_InPort Scipipe.BaseProcess_OutPort Scipipe.BaseProcess_InParamPort Scipipe.BaseProcess_OutParamPort Scipipe.BaseProcess_InPorts Scipipe.BaseProcess_OutPorts Scipipe.BaseProcess_InParamPorts Scipipe.BaseProcess_OutParamPorts Scipipe.InPort_SetProcess Scipipe.OutPort_SetProcess Scipipe.InPort_Process Scipipe.OutPort_Process Scipipe.OutParamPort_Process Scipipe.InParamPort_Process Scipipe.Workflow_AddProcs Scipipe.Workflow_Procs Scipipe.BaseProcess_DeleteInPort Scipipe.BaseProcess_DeleteOutPort Scipipe.BaseProcess_DeleteInParamPort Scipipe.BaseProcess_DeleteOutParamPort Scipipe.OutParamPort_removeRemotePort Scipipe.NewSink Scipipe.Workflow_SetSink
+-- PIN-ALSO: Scipipe.InPort_Ready Scipipe.OutPort_Ready Scipipe.InParamPort_Ready Scipipe.OutParamPort_Ready Scipipe.InPort_Disconnect Scipipe.OutPort_Disconnect Scipipe.OutParamPort_Disconnect Scipipe.InPort_SetReady Scipipe.OutPort_SetReady Scipipe.InParamPort_SetReady Scipipe.OutParamPort_SetReady Scipipe.Sink_From Scipipe.Sink_FromParam Scipipe.Workflow_AddProc Scipipe.Workflow_Proc Scipipe.InParamPort_FromStr Scipipe.BaseProcess_InitInPort Scipipe.BaseProcess_InitOutPort Scipipe.BaseProcess_InitInParamPort Scipipe.BaseProcess_InitOutParamPort Scipipe.Process_In Scipipe.Process_Out Scipipe.Process_InParam Scipipe.Process_OutParam Scipipe.NewProc Scipipe.Workflow_NewProc Scipipe.NewBaseProcess Scipipe.BaseProcess_InPort Scipipe.BaseProcess_OutPort Scipipe.BaseProcess_InParamPort Scipipe.BaseProcess_OutParamPort Scipipe.BaseProcess_InPorts Scipipe.BaseProcess_OutPorts Scipipe.BaseProcess_InParamPorts Scipipe.BaseProcess_OutParamPorts Scipipe.InPort_SetProcess Scipipe.OutPort_SetProcess Scipipe.InPort_Process Scipipe.OutPort_Process Scipipe.OutParamPort_Process Scipipe.InParamPort_Process Scipipe.Workflow_AddProcs Scipipe.Workflow_Procs Scipipe.BaseProcess_DeleteInPort Scipipe.BaseProcess_DeleteOutPort Scipipe.BaseProcess_DeleteInParamPort Scipipe.BaseProcess_DeleteOutParamPort Scipipe.OutParamPort_removeRemotePort Scipipe.NewSink Scipipe.Workflow_SetSink Scipipe.Workflow_Sink Scipipe.Workflow_Name Scipipe.NewWorkflowCustomLogFile
 open SciVerif.Generated SciVerif.Graph
 
 theorem generated_run_sem_good : good runSem := by decide
@@ -67,6 +67,7 @@ theorem c16_on_source (wf : Wf) (hac : acyclic wf) (ts : List Nat) (hts : ∀ t 
 
 
 
+
 -- BEGIN PINS (written by bin/mkpins; do not edit by hand)
 /-- the Go functions this property's model and obligations were written against have exactly the
 pinned skeletons (SHA-256 prefix of the atom list) -/
@@ -102,6 +103,7 @@ theorem pinned_skeletons_c16 :
      ("Scipipe.NewBaseProcess", "44bcb5795d2c0c17"),
      ("Scipipe.NewProc", "87c3cac25a30f9dc"),
      ("Scipipe.NewSink", "a492528b88e6e985"),
+     ("Scipipe.NewWorkflowCustomLogFile", "973414122f728bb6"),
      ("Scipipe.OutParamPort_Disconnect", "1a71a40de11b44f8"),
      ("Scipipe.OutParamPort_Process", "b038149df3b6386e"),
      ("Scipipe.OutParamPort_Ready", "4e1487fcb30ac148"),
@@ -120,6 +122,7 @@ theorem pinned_skeletons_c16 :
      ("Scipipe.Sink_FromParam", "be5cd0eedafe3561"),
      ("Scipipe.Workflow_AddProc", "bc7195e782cf60e1"),
      ("Scipipe.Workflow_AddProcs", "dfa1b13bda2696c6"),
+     ("Scipipe.Workflow_Name", "acadd928dcada2d0"),
      ("Scipipe.Workflow_NewProc", "0c40600b4fc86df2"),
      ("Scipipe.Workflow_Proc", "d0b2b26039d5b3fe"),
      ("Scipipe.Workflow_Procs", "3ea5684b3662347e"),
@@ -128,6 +131,7 @@ theorem pinned_skeletons_c16 :
      ("Scipipe.Workflow_RunToProcs", "397593629fe3c425"),
      ("Scipipe.Workflow_RunToRegex", "bee9945ee58084e1"),
      ("Scipipe.Workflow_SetSink", "7da5ff0b1e07295f"),
+     ("Scipipe.Workflow_Sink", "a9fd1dd78a9338c6"),
      ("Scipipe.Workflow_readyToRun", "378c8cdc8eb779a8"),
      ("Scipipe.Workflow_reconnectDeadEndConnections", "9ed90a908028bbfc"),
      ("Scipipe.Workflow_runProcs", "62dfa98c32085220"),
